@@ -31,10 +31,20 @@ CxNames == << CxRep(<<195, 169>>, 128),                       \* 256 bytes of tw
               <<255, 254, 253>>, <<128>>, <<195>>,            \* not UTF-8: invalid bytes, lone continuation, truncated
               CxA(200) \o <<237, 160, 128>>,                  \* an encoded surrogate
               <<0>>, <<97, 0, 98>>, <<97, 46>>, <<46>>, <<97, 46, 98, 46>>,   \* NUL bytes, trailing dots
-              CxRep(<<226, 130, 172>>, 21000) >>               \* 63000 bytes of three-byte characters
+              CxRep(<<226, 130, 172>>, 21000),                 \* 63000 bytes of three-byte characters
+              (* runs of 2-, 3- and 4-byte characters at every alignment: whatever byte offset a text-minded implementation cuts at, *)
+              (* one of these has a character straddling it                                                                           *)
+              CxRep(<<195, 169>>, 150), CxA(1) \o CxRep(<<195, 169>>, 150),
+              CxRep(<<226, 130, 172>>, 100), CxA(1) \o CxRep(<<226, 130, 172>>, 100), CxA(2) \o CxRep(<<226, 130, 172>>, 100),
+              CxRep(<<240, 159, 146, 169>>, 75), CxA(1) \o CxRep(<<240, 159, 146, 169>>, 75), CxA(2) \o CxRep(<<240, 159, 146, 169>>, 75),
+              CxA(3) \o CxRep(<<240, 159, 146, 169>>, 75) >>
 CxSniVals == [k \in 1..Len(CxNames) |-> [t |-> "SNI", tag |-> 0, names |-> <<[nt |-> 0, name |-> CxNames[k]]>>]]
-CxAlpnVals == [k \in 1..3 |-> [t |-> "ALPN", tag |-> 16, protos |-> << <<CxRep(<<195, 169>>, 127)>>, <<CxA(253) \o <<195, 169>>>>,
-                                                                    <<<<255>>, <<195>>, <<0>>>> >>[k]]]
+CxAlpnVals == [k \in 1..7 |-> [t |-> "ALPN", tag |-> 16, protos |-> << <<CxRep(<<195, 169>>, 127)>>, <<CxA(253) \o <<195, 169>>>>,
+                                                                    <<<<255>>, <<195>>, <<0>>>>,
+                                                                    <<CxRep(<<195, 169>>, 100), CxA(1) \o CxRep(<<195, 169>>, 100)>>,
+                                                                    <<CxRep(<<226, 130, 172>>, 80), CxA(1) \o CxRep(<<226, 130, 172>>, 80), CxA(2) \o CxRep(<<226, 130, 172>>, 80)>>,
+                                                                    <<CxRep(<<240, 159, 146, 169>>, 60), CxA(1) \o CxRep(<<240, 159, 146, 169>>, 60)>>,
+                                                                    <<CxA(2) \o CxRep(<<240, 159, 146, 169>>, 60), CxA(3) \o CxRep(<<240, 159, 146, 169>>, 60)>> >>[k]]]
 CxExtVals == CxSniVals \o CxAlpnVals
 
 CxHelloWith(extblock) == [t |-> "ClientHello", ver |-> 771, random |-> Fill(11, 32), sid |-> None, ciphers |-> <<4865, 47>>, comp |-> <<0>>,
